@@ -20,9 +20,13 @@ P_SRCS = {
     'uni': 'ü = g("é", ñ [ 0 ])  # ç\nz = -ü\n',
     'block': 'if a :  # h\n    b = ( 1,\n          2 )\nelse :\n    c\n',
     'deco': '@ d1\n@d2 ( q )\ndef f ( a , b = 1 ) :\n    return a\n',
+    'fstr_dbg': 'print(f\'größe: {w * h = } { ü [ 0 ] = !r}\')\n',
     'fstr': 'x = f\'{ {1, 2}} { a + b } {d [ 0 ] !r:>{ w }}\'\ny = f"é{ ü . v }{ {k : 1} }"\n',
     'misc': 'r = lambda p , * q : p if q else { 1 : 2 , ** s }\nt = a . b [ 1 : 2 ]\n',
 }
+
+
+_FSTR_TEXT = {getattr(tokenize, n_) for n_ in ('FSTRING_START', 'FSTRING_MIDDLE', 'FSTRING_END') if hasattr(tokenize, n_)}
 
 
 def _gaps(src):
@@ -36,10 +40,15 @@ def _gaps(src):
             if t.type in (tokenize.NL, tokenize.NEWLINE):
                 prev = None
             continue
-        if prev is not None and prev.end[0] == t.start[0] and prev.end[1] <= t.start[1]:
+        if prev is not None and prev.end[0] == t.start[0] and prev.end[1] <= t.start[1] and not ({prev.type, t.type} & _FSTR_TEXT):     # next to the literal text of an f-string a blank is content, not trivia
             out.append((t.start[0] - 1, prev.end[1], t.start[1]))
         prev = t
     return out
+
+
+def _no_dbg(d):
+    import re
+    return re.sub(r"Constant\(value='[^']*= *'\)", 'DBG', d)
 
 
 def _mk_gap(key):
@@ -71,7 +80,9 @@ def _mk_gap(key):
             new_src = '\n'.join(lines[:ln] + [lines[ln][:aa] + ' ' * kk + lines[ln][bb:]] + lines[ln + 1:])
             try:
                 ast.parse(new_src)
-                still_valid = ast.dump(ast.parse(new_src)) == ast.dump(t)
+                # same node structure; the TEXT constant of a self-documenting f-string field (f'{a = }') legitimately follows the whitespace
+                still_valid = [type(n_).__name__ for n_ in ast.walk(ast.parse(new_src))] == [type(n_).__name__ for n_ in ast.walk(t)] and \
+                    _no_dbg(ast.dump(ast.parse(new_src))) == _no_dbg(ast.dump(t))
             except SyntaxError:
                 still_valid = False
         assume(best is not None and still_valid)      # e.g. deleting the blank in 'p if q' merges tokens: not a trivia-preserving edit
@@ -91,4 +102,4 @@ for _k in P_SRCS:
     CELLS.append(Cell(f'P1.put_src_offset[{_k}]', _mk_gap(_k), 'P', ['fst.fst.FST.put_src', 'fst.fst_core._put_src', 'fst.fst_core._params_offset', 'fst.fst_core._offset', 'fst.fst_misc.clip_src_loc'],
                       f'carrier {_k}: every inter-token gap found by tokenize ({len(_gaps(P_SRCS[_k]))}), symbolic sub-range [a, b] of the gap replaced by k in 0..3 blanks, called on the innermost node strictly containing the spot '
                       '(computed from CPython positions); result must be the splice and re-parse to the live tree incl. positions (finite choice + pinned columns)',
-                      tier='quick' if _k in ('expr', 'uni', 'deco', 'fstr') else 'thorough', budget=600, per_path=60, out='multi-line replacements; comments as replacement text', reset=pc.reset_globals))
+                      tier='quick' if _k in ('expr', 'uni', 'deco', 'fstr', 'fstr_dbg') else 'thorough', budget=600, per_path=60, out='multi-line replacements; comments as replacement text', reset=pc.reset_globals))
